@@ -113,6 +113,13 @@ class OperationsManager(OperationsManagerProtocol):  # inheriting from protocol 
             msg_types = self._msg_reader.msg_types
             abstract_set_response = msg_types.AbstractSetResponse.from_node(message_data.p_msg.msg_node)
             invocation_info = abstract_set_response.InvocationInfo
+            transaction_id = invocation_info.TransactionId
+            # look for all related report parts (they can arrive before the response), they become part of the result
+            parts = [
+                part
+                for part in self._last_operation_invoked_reports
+                if part.InvocationInfo.TransactionId == transaction_id
+            ]
             if invocation_info.InvocationState in (
                 msg_types.InvocationState.FAILED,
                 msg_types.InvocationState.CANCELLED,
@@ -125,17 +132,10 @@ class OperationsManager(OperationsManagerProtocol):  # inheriting from protocol 
                     None,
                     None,
                     abstract_set_response,
-                    [],
+                    parts,
                 )
                 future_object.set_result(operation_result)
                 return future_object
-            transaction_id = invocation_info.TransactionId
-            # now look for all related report parts and add them to result
-            parts = [
-                part
-                for part in self._last_operation_invoked_reports
-                if part.InvocationInfo.TransactionId == transaction_id
-            ]
             # now look for a final report part
             final_parts = [
                 part for part in parts if part.InvocationInfo.InvocationState not in self.nonFinalOperationStates
